@@ -681,6 +681,18 @@ TRIAGE[("C16", "R9", "qkeras/qtools/quantized_operators/quantizer_impl.py"
     "replayed": "QuantizerFactory().make_quantizer(quantized_tanh(6)) has "
                 "(mode, bits, int_bits, is_signed) == (0, 6, -1, 1) on the "
                 "real code before the fix"}
+TRIAGE[("C18", "R7", "qkeras/estimate.py::analyze_accumulator",
+        "estimator-below-reachable-output")] = {
+    "status": "fixed", "commit": "e2b9a96",
+    "what_fails": "analyze_accumulator folded the bias into the sums of "
+                  "positive / negative weights, so the bias was multiplied "
+                  "by the input extremes: for ranges with |x| < 1 or a "
+                  "one-sided range the returned size was below log2 of a "
+                  "reachable output",
+    "replayed": "QDense kernel [[-2,0],[-2,0]], bias [0.5,-3], range (-2, 0) "
+                "on the real code before the fix: analyze_accumulator "
+                "returns 3, the layer outputs 8.5 for input (-2,-2) "
+                "(log2 = 3.09)"}
 _ADD = "qkeras/qtools/quantized_operators/multiplier_impl.py::Adder"
 for _k in (("max", "both-capped", "mixed-sign"), ("max", "no-cap", "mixed-sign"),
            ("max", "one-sided-cap", "mixed-sign"),
